@@ -49,6 +49,21 @@ def gen(rng, tier):
         loop = rng.choice(["Z: Z Ta;", "Z: Ta Z | Z Y;\nY: Z Ta;", "Z: Y Ta;\nY: Z Ta | Y Z;", "Y: Z Ta | Y Z;\nZ: Y Ta;"]).replace("Ta", next(iter(g.terms)))
         first = g.nts[rng.randrange(len(g.nts))]
         texts.append(g.render().replace(first + ":", first + ": Z Z |", 1).replace("terminals\n", loop + "\nterminals\n", 1))
+    # grammars with a Layout rule: a second automaton (AUGL) is built into the same table after the first one and
+    # merges with its states (recursive Layout: nested comments need lookahead propagation too); compared through the
+    # whole-table model correspondence (the cover certificate is run on the main automaton)
+    from gram import random_grammar as _rg
+    for layout, k in (("nested", 10), ("comments", 5), ("ws", 3)):
+        made = 0
+        while made < (k if tier == "quick" else k * 10):
+            g = _rg(rng, p_empty=0.2, max_nts=3, layout=layout)
+            if g.undefined_symbols() or not g.all_productive():
+                continue
+            made += 1
+            texts.append(g.render())
+    texts.append("S: Num+;\nLayout: LayoutItem*;\nLayoutItem: WS | Comment;\nComment: CS Items CE;\nGroup: LP Items RP;\n"
+                 "Items: Item*;\nItem: Comment | Group | Word | WS;\nterminals\nNum: /\\d+/;\nWS: /\\s+/;\nCS: '/*';\nCE: '*/';\n"
+                 "LP: '(';\nRP: ')';\nWord: /[a-z]+/;\n")
     for text in texts:
         for tt in ("LALR", "LALR_PAGER", "LALR_RN"):
             # GLR algorithm: cells keep every candidate (no prefer-shift); table type overridden explicitly
